@@ -100,9 +100,11 @@ func cleanSuffix(val any) any {
 	switch t := val.(type) {
 	case map[string]any:
 		for k, v := range t {
-			parts := strings.Split(k, "#")
+			// several variables contribute to the same (nested) key, each under
+			// its own suffix. Their values must be merged, not replaced
+			key := strings.Split(k, "#")[0]
 
-			result[parts[0]] = cleanSuffix(v)
+			result[key] = merge(result[key], cleanSuffix(v))
 		}
 
 		return result
